@@ -176,15 +176,21 @@ def k_conf_reuse(ctx, kind, seed):
     case = {"k": "conf_reuse", "kind": kind, "seed": seed}
     ctx.case(f"conf_reuse/{kind}", (kind, seed), sample=case)
     trail = []
+    kept = []                # PDUs built in earlier rounds: the caller goes on using its configuration object, they keep what they were built with
+    replace = r.random() < 0.5           # ids given to the configuration as new field objects (True) or written into the existing ones (False)
     for rnd in range(hist_len(r, 2, 5)):
         if rnd:
             how = r.choice(("int", "bytes"))
             conv = (lambda v, w: v) if how == "int" else (lambda v, w: v.to_bytes(w, "big"))
-            for name, fld, w in (("src", conf.source_entity_id, cfg["idw"]), ("dst", conf.dest_entity_id, cfg["idw"]), ("seq", conf.transaction_seq_num, cfg["seqw"])):
+            for name, attr, w in (("src", "source_entity_id", cfg["idw"]), ("dst", "dest_entity_id", cfg["idw"]), ("seq", "transaction_seq_num", cfg["seqw"])):
                 if r.random() < 0.7:
                     cfg[name] = rand_uint(r, 8 * w)
-                    fld.value = conv(cfg[name], w)
-                    trail.append(f"{name}.value={how}")
+                    if replace:
+                        setattr(conf, attr, X.ByteFieldGenerator.from_int(w, cfg[name]))
+                        trail.append(f"{name}=new_field")
+                    else:
+                        getattr(conf, attr).value = conv(cfg[name], w)
+                        trail.append(f"{name}.value={how}")
             if r.random() < 0.5:
                 cfg["crc"] = r.getrandbits(1)
                 conf.crc_flag = d.CrcFlag(cfg["crc"])
@@ -195,7 +201,18 @@ def k_conf_reuse(ctx, kind, seed):
                 trail.append("trans_mode")
         p = C.rand_params(r, kind, cfg, rich=False)
         want = C.ref_octets(kind, cfg, p)
-        ok, raw = attempt(lambda: bytes(_build_with_conf(kind, conf, p).pack()))
+        built = []
+        ok, raw = attempt(lambda: (built.append(_build_with_conf(kind, conf, p)), bytes(built[0].pack()))[1])
+        if replace:
+            # (ids written *into* the shared field objects reach earlier PDUs by design of the shallow configuration copy; replaced
+            #  fields and re-assigned flags do not)
+            for rnd0, pdu0, want0 in kept:
+                ok0, raw0 = attempt(lambda: bytes(pdu0.pack()))
+                if not ctx.check("pdu.conf_reuse", ok0 and raw0 == want0, "pdu_built_earlier_follows_later_changes_of_the_callers_config", f"{kind}/" + (_where(kind, cfg, p, raw0, want0) if ok0 and len(raw0) == len(want0) else "len_or_raised"),
+                                 dict(case, round=rnd, built_in_round=rnd0), trail=trail, expected=want0[:64], observed=raw0[:64] if ok0 else repr(raw0)):
+                    return
+            if ok and built:
+                kept.append((rnd, built[0], want))
         if not ctx.check("pdu.conf_reuse", ok and raw == want, "octets_of_pdu_built_from_updated_config", f"{kind}/" + (_where(kind, cfg, p, raw, want) if ok else "raised"),
                          dict(case, round=rnd), trail=trail, expected=want[:64], observed=raw[:64] if ok else repr(raw)):
             return
